@@ -29,11 +29,13 @@ def group(lower, upper, viol):
 
 def drive(sc):
     v, lb, ub = sc["v"], [f(b) for b in sc["lb"]], [f(b) for b in sc["ub"]]
-    transforms = make_transforms([2.0, 0.5], [1.0, -1.0], [2.0], [2.0, 4.0]) if sc["tf"] else None
+    transforms = {0: None, 1: make_transforms([2.0, 0.5], [1.0, -1.0], [2.0], [2.0, 4.0]),
+                  2: make_transforms(var_scales=[2.0, 0.5]), 3: make_transforms(var_offsets=[1.0, -1.0]),
+                  4: make_transforms(con_scales=[2.0, 4.0]), 5: make_transforms(obj_scales=[2.0])}[int(sc["tf"])]
     cfg = {
         "variables": ({"initial_values": [float(x) for x in v]} if sc.get("vfree") else
                       {"initial_values": [float(x) for x in v], "lower_bounds": lb, "upper_bounds": ub}),
-        "linear_constraints": {"coefficients": [[1.0, 1.0], [1.0, -1.0]], "lower_bounds": lb, "upper_bounds": ub},
+        "linear_constraints": {"coefficients": [[2.0, 2.0], [1.0, -1.0]], "lower_bounds": lb, "upper_bounds": ub},
         "nonlinear_constraints": {"lower_bounds": lb, "upper_bounds": ub},
     }
 
@@ -70,8 +72,8 @@ def model_runs(tier):
 CHECK = PropertyCheck(
     prop="C13", trace_module="Trace_C13", drive=drive, model_runs=model_runs,
     rule=("TLC enumerates value x (lower, upper) with either side finite or infinite for the first entry and a catalogue of companion "
-          "entries (every finite/infinite mix within one bound vector), x tolerance x dyadic transforms; the same triples serve as "
-          "variable bounds, linear rows (x1+x2, x1-x2) and non-linear constraints; replayed through a plan evaluator step with a "
+          "entries (every finite/infinite mix within one bound vector), x tolerance x six transform sets (none, all, variable scales, variable offsets only, constraint scaling only, objective scaling only; dyadic); the same triples serve as "
+          "variable bounds, linear rows (2x1+2x2, x1-x2) and non-linear constraints; replayed through a plan evaluator step with a "
           "'last' tracker. Non-trivial: a mix of finite and infinite bounds or a violated bound."),
     assumptions=["integer data and dyadic transforms: differences compared exactly",
                  "bound differences may be absent only when no variable bound is finite",
